@@ -59,6 +59,23 @@ def render_expr(e, opt, top=True):
     return s if top else f"({s})"
 
 
+def _and_only(e):
+    if "task" in e:
+        return e
+    return {"op": "and", "args": [_and_only(a) for a in e["args"]]}
+
+
+def future_offset(scn, task) -> int:
+    """largest future trigger offset among the prerequisites of a task (0 if none): TaskDef.max_future_prereq_offset"""
+    m = 0
+    for sec in scn["sections"]:
+        for ln in sec["lines"]:
+            if ln["rhs"] == task and ln["lhs"] is not None:
+                for a in atoms(ln["lhs"]):
+                    m = max(m, a.get("off", 0) if a.get("abs") is None else 0)
+    return m
+
+
 # ---- scenario generation ---------------------------------------------------
 def gen_scenario(rng: random.Random, feat: dict | None = None) -> dict:
     feat = feat or {}
@@ -104,6 +121,10 @@ def gen_scenario(rng: random.Random, feat: dict | None = None) -> dict:
                     a["off"] = 0
                 elif feat.get("abs") and r > (0.9 - 0.4 * (feat.get("abs") == "many")) and home[up] == si and rec.startswith("P"):
                     a["abs"] = 0
+                elif feat.get("future") and r < 0.75 and up != rhs and up in members:
+                    # future trigger a[+P1] => b: b waits for the NEXT instance of a (the runahead limit is
+                    # pushed out while b is pooled).  Never under an OR (see the note in gen_scenario's tail).
+                    a["off"] = rng.choice([1, 1, 2, 3])
                 else:
                     a["off"] = -rng.choice([1, 1, 1, 2])
                     if a["off"] == 0:
@@ -129,6 +150,10 @@ def gen_scenario(rng: random.Random, feat: dict | None = None) -> dict:
             else:
                 e = {"op": rng.choice(["and", "or"]),
                      "args": [uniq[0], {"op": rng.choice(["and", "or"]), "args": uniq[1:]}]}
+            if any(a.get("off", 0) > 0 for a in uniq):
+                # cylc does not spawn an instance with ANY prerequisite target beyond the stop point, also when
+                # the atom sits under an OR; keep future atoms to conjunctions so that the logical reading agrees
+                e = _and_only(e)
             lines.append({"lhs": e, "rhs": rhs})
         sections.append({"rec": rec, "lines": lines})
     # drop dependency lines that refer to instances that do not exist (off-sequence offsets such as
@@ -147,7 +172,7 @@ def gen_scenario(rng: random.Random, feat: dict | None = None) -> dict:
                 for pnt in rec_points(sec_["rec"], icp, fcp):
                     for a in atoms(ln["lhs"]):
                         up = icp + a["abs"] if a.get("abs") is not None else pnt + a.get("off", 0)
-                        if up >= icp and up not in _valid_points(a["task"]):
+                        if icp <= up <= fcp and up not in _valid_points(a["task"]):
                             ok = False
             if ok:
                 keep.append(ln)
